@@ -10,8 +10,14 @@
 //!   c14 run <outdir> <tier> <seed> <shards_sample> <shards_sweep> <shards_sorted> <points.ndjson>
 //!   c14 probe <out.ndjson> <value>...      (replay: the same events for the given 32-bit values)
 //!
+//! After the ascending sweep the same calls are made in descending and in a stride-permuted
+//! order (out-of-range values interleaved), and aircraft_information in both orders of the
+//! sample; `again` / `diff` events say how many later results differed from the first ones
+//! (a lookup that carries state between calls is not a function of the address).
+//!
 //! Files written by `run`:
 //!   a.K.ndjson  sampled addresses, one event per address, with aircraft_information
+//!               (the last one also holds the out-of-range values and the again/diff events)
 //!   w.K.ndjson  (thorough) the whole domain in address order: one event per returned
 //!               registration or panic, one event per maximal run of `None`
 //!   b.K.ndjson  every returned registration, sorted by registration text (shards overlap
@@ -85,10 +91,12 @@ fn ai_field(h: u32) -> String {
 fn probe(path: &str, values: &[String]) {
     let mut w = BufWriter::new(File::create(path).expect("create"));
     let mut regs: Vec<(u32, String)> = Vec::new();
+    let mut results: std::collections::HashMap<u32, (u8, String)> = Default::default();
     let mut n = 0usize;
     for v in values {
         let h: u32 = v.parse().expect("u32 value");
         let (kd, s) = lookup(h);
+        results.entry(h).or_insert((kd, s.clone()));
         if h < DOMAIN {
             writeln!(w, "{{\"e\":\"t\",\"h\":{},\"out\":\"{}\",\"reg\":{},\"ai\":{}}}",
                      h, out_name(kd), chars(&s), ai_field(h)).unwrap();
@@ -104,6 +112,23 @@ fn probe(path: &str, values: &[String]) {
     regs.sort_by(|a, b| a.1.cmp(&b.1).then(a.0.cmp(&b.0)));
     for (h, s) in &regs {
         writeln!(w, "{{\"e\":\"s\",\"h\":{},\"reg\":{}}}", h, chars(s)).unwrap();
+        n += 1;
+    }
+    // the same values again, in the reverse and then in the given order
+    let vals: Vec<u32> = values.iter().map(|v| v.parse().unwrap()).collect();
+    let firsts: Vec<(u8, String)> = vals.iter().map(|&v| results[&v].clone()).collect();
+    let mut a = Again::new("replay");
+    let mut before = *vals.last().unwrap_or(&0);
+    for i in (0..vals.len()).rev().chain(0..vals.len()) {
+        let (k2, s2) = lookup(vals[i]);
+        let (k1, s1) = (&firsts[i].0, &firsts[i].1);
+        a.note(vals[i], before, *k1 == k2 && *s1 == s2, &|| res_json(*k1, s1), &|| res_json(k2, &s2));
+        before = vals[i];
+    }
+    writeln!(w, "{}", a.summary()).unwrap();
+    n += 1;
+    for d in &a.diffs {
+        writeln!(w, "{d}").unwrap();
         n += 1;
     }
     w.flush().unwrap();
